@@ -1,10 +1,11 @@
-\* C15 quick: restart on Done, the three servers, scripts of up to 2 steps, every timing; the code as it is (emitted) and repaired
+\* C15 quick: restart on Done, two of the three servers (chain-sync: thorough tier), scripts of up to 2 steps, every timing; the code as it is (the repaired design: thorough tier)
 CONSTANTS
   MaxLen = 2
   MaxGen = 3
-  Protos = {"chainsync", "blockfetch", "txsubmission"}
+  Protos = {"blockfetch", "txsubmission"}
   Times = {"free", "early", "mid", "late"}
-  Designs = {"extracted", "repaired"}
+  FreeAll = FALSE
+  Designs = {"extracted"}
   Emit = TRUE
 SPECIFICATION Spec
 INVARIANTS TypeOK RegisteredRuns OneLive DoneAfterLoops CleanAfterDone GenBound TerminalGood RestGood EmitOutcome
